@@ -68,6 +68,23 @@ pub const PROPS: &[Prop] = &[
     },
 ];
 
+// ---------------------------------------------------------------------------------------------
+// type-contract probe (compile-time, auxiliary to the simulation): a shared `&Channel<T>` moves whole
+// `T`s between threads and drops them there, so it may be `Sync` exactly for `T: Send`.  The probe
+// evaluates, without failing the build, whether `Channel<P>` is `Sync` for a payload `P` that is
+// `Sync` but not `Send`.
+struct SyncNotSend(std::marker::PhantomData<std::sync::MutexGuard<'static, ()>>);
+struct ProbeSync<T: ?Sized>(std::marker::PhantomData<T>);
+trait ProbeFallback {
+    const IS_SYNC: bool = false;
+}
+impl<T: ?Sized> ProbeFallback for ProbeSync<T> {}
+impl<T: ?Sized + Sync> ProbeSync<T> {
+    const IS_SYNC: bool = true;
+}
+const CHANNEL_SYNC_FOR_NON_SEND_PAYLOAD: bool = <ProbeSync<Channel<SyncNotSend>>>::IS_SYNC;
+const CHANNEL_SYNC_FOR_SEND_PAYLOAD: bool = <ProbeSync<Channel<std::cell::Cell<u8>>>>::IS_SYNC;
+
 #[derive(Clone, Debug, PartialEq)]
 enum OpK {
     Send(usize),
@@ -516,6 +533,17 @@ pub fn run(spec: &RunSpec) -> ! {
     let sh = sighook_shim::shm::get();
     sighook_shim::shm::put_str(&mut sh.crash_prop, "C07");
     let prop = spec.prop.id;
+    if CHANNEL_SYNC_FOR_NON_SEND_PAYLOAD && spec.run % 1024 == 0 {
+        let _ = &SyncNotSend(std::marker::PhantomData);
+        sim::start(Config { prop: prop.to_string(), ..Config::default() });
+        sim::report(
+            "C07",
+            "channel-sync-for-non-send-payload",
+            "type-contract probe: Channel<P> is Sync for a payload P that is Sync but not Send (e.g. a MutexGuard): safe code can then move a thread-bound value to another thread through a shared channel and drop it there, outside every ordering the channel establishes",
+            true,
+        );
+    }
+    let _ = CHANNEL_SYNC_FOR_SEND_PAYLOAD;
     if prop == "C08" && spec.run < spec.prop.sweep_runs {
         sweep_run(spec);
     }
@@ -524,8 +552,9 @@ pub fn run(spec: &RunSpec) -> ! {
     }
     let nprod = 1 + sim::work(3) as usize;
     let ncons = 1 + sim::work(2) as usize;
-    let sends: Vec<usize> = (0..nprod).map(|_| 2 + sim::work(6) as usize).collect();
-    let recvs: Vec<usize> = (0..ncons).map(|_| 2 + sim::work(8) as usize).collect();
+    let deep = spec.tier == Tier::Thorough;
+    let sends: Vec<usize> = (0..nprod).map(|_| 2 + sim::work(if deep { 10 } else { 6 }) as usize).collect();
+    let recvs: Vec<usize> = (0..ncons).map(|_| 2 + sim::work(if deep { 12 } else { 8 }) as usize).collect();
     let policy = match sim::work(8) {
         0 | 1 => Policy::Uniform,
         2 => Policy::Sticky(5),
